@@ -66,6 +66,25 @@ func otherSide(cond ssa.Value, val bool) (*ssa.If, *ssa.BasicBlock) {
 }
 
 func isFreshErrorCall(v ssa.Value) bool {
+	// the error result of a helper of the module every return of which hands back a fresh error
+	// (`return invalidPath()` for `return BadDigest, status.Error(…)`)
+	if ex, isEx := stripConv(v).(*ssa.Extract); isEx {
+		if hc, isCall := ex.Tuple.(*ssa.Call); isCall {
+			if sc := hc.Call.StaticCallee(); sc != nil && len(sc.Blocks) > 0 && sc.Pkg != nil && strings.HasPrefix(sc.Pkg.Pkg.Path(), modPath) {
+				rs := returnsOf(sc)
+				for _, r := range rs {
+					if ex.Index >= len(r.Results) {
+						return false
+					}
+					if inner, ok := stripConv(returnedValue(r, ex.Index)).(*ssa.Call); !ok || !isFreshErrorCall(inner) {
+						return false
+					}
+				}
+				return len(rs) > 0
+			}
+		}
+		return false
+	}
 	cl, ok := stripConv(v).(*ssa.Call)
 	if !ok {
 		return false
@@ -116,7 +135,7 @@ func quietBlock(b *ssa.BasicBlock) bool {
 			if sc == nil {
 				return false
 			}
-			if isErrorConstructor(sc) || releaseNames[sc.Name()] || pureLooking(sc.Name()) {
+			if isErrorConstructor(sc) || releaseNames[sc.Name()] || pureLooking(sc.Name()) || pureModuleFunc(sc, 0) || onlyBuildsErrors(sc) {
 				continue
 			}
 			if sc.Pkg != nil && sc.Pkg.Pkg.Path() == modPath+"/pkg/blobstore/buffer" && sc.Name() == "NewBufferFromError" {
@@ -306,4 +325,43 @@ func exemptExit(ret *ssa.Return) bool {
 	}
 	// b is reached when cond == (b is the true successor)
 	return emptyInputExit(iff, iff.Cond, p.Succs[0] != b, b)
+}
+
+// onlyBuildsErrors: a helper of the module that does nothing but construct the values it returns (an error among them).
+func onlyBuildsErrors(f *ssa.Function) bool {
+	if f == nil || len(f.Blocks) == 0 {
+		return false
+	}
+	ok := true
+	allInstrs(f, func(ins ssa.Instruction) {
+		switch x := ins.(type) {
+		case *ssa.Call:
+			if _, isB := x.Call.Value.(*ssa.Builtin); isB {
+				return
+			}
+			sc := x.Call.StaticCallee()
+			if sc == nil || !(isErrorConstructor(sc) || pureLooking(sc.Name())) {
+				ok = false
+			}
+		case *ssa.MapUpdate, *ssa.Send, *ssa.Go, *ssa.Defer, *ssa.Panic:
+			ok = false
+		case *ssa.Store:
+			root := x.Addr
+			for {
+				switch a := root.(type) {
+				case *ssa.IndexAddr:
+					root = a.X
+					continue
+				case *ssa.FieldAddr:
+					root = a.X
+					continue
+				}
+				break
+			}
+			if _, local := root.(*ssa.Alloc); !local {
+				ok = false
+			}
+		}
+	})
+	return ok
 }
